@@ -337,12 +337,14 @@ def gen_effect_emission(loader, check, replay_on=True):
                     cv = rzil.Evaluator().ev(term[2][0])
                     want = c.ghost["den"] if c.ghost["sort"] == "bool" else (c.ghost["den"] != 0)
                     rpt = rp
-                    if replay_on and ck in ("Register", "PredRegister"):
-                        rpt = ("c05.cond_truth", lambda mdl, ck=ck, ct=ct, what=what: {"what": what, "cond_kind": ck, "ct": list(ct), "c": int(mdl.get("c", 0))})
+                    if replay_on and ck in ("Register", "PredRegister", "Number"):
+                        rpt = ("c05.cond_truth", lambda mdl, ck=ck, ct=ct, what=what: {"what": what, "cond_kind": ck, "ct": list(ct),
+                                                                                         "c": int(mdl.get("c_lit" if ck == "Number" else "c", 0))})
                     check.ob(f"{name}#condition-is-C-truth-of-cond", pi, p.ctx.pc, cv.v == want, replay=rpt, detail=t.render())
                     # linearity: the condition is read exactly once and that text is embedded exactly once; each arm is referenced once
                     reads = [(a.tag, a.ordinal) for a in t.atoms() if a.kind == "read"]
-                    rpl = ("c05.cond_once", lambda mdl, ck=ck, what=what: {"what": what, "cond_kind": ck}) if replay_on else None
+                    # (a literal condition is re-rendered, not consumed: no native stand-in for this clause - a refutation is reported without a failing input)
+                    rpl = ("c05.cond_once", lambda mdl, ck=ck, what=what: {"what": what, "cond_kind": ck}) if replay_on and ck != "Number" else None
                     check.ob(f"{name}#atom-linearity", pi, p.ctx.pc, c.ghost.get("nreads", 0) == 1 and reads == [("c", 1)], replay=rpl,
                              detail=f"condition il_read() x{c.ghost.get('nreads', 0)}, embedded: {reads}")
                     if what == "Branch":
@@ -1028,7 +1030,13 @@ def replay_cond_truth(a):
     from rzilcompiler.Transformer.Pures.Register import Register, RegisterAccessType
     from rzilcompiler.Transformer.ValueType import ValueType
     ct = tuple(a["ct"])
-    c = Register("Pu" if a["cond_kind"] == "PredRegister" else "Rs", RegisterAccessType.R, ValueType(*ct))
+    v = a["c"] % (2 ** ct[1])
+    if a["cond_kind"] == "Number":
+        from rzilcompiler.Transformer.Pures.Number import Number
+        c = Number("const_c", v - 2 ** ct[1] if ct[0] and v >> (ct[1] - 1) else v, ValueType(*ct))
+        c.inlined = True
+    else:
+        c = Register("Pu" if a["cond_kind"] == "PredRegister" else "Rs", RegisterAccessType.R, ValueType(*ct))
     n = Branch("b", c, NOP("t"), NOP("e")) if a["what"] == "Branch" else ForLoop("f", c, NOP("t"))
     txt = n.il_write()
     inner = txt[txt.index("(") + 1:]
@@ -1040,11 +1048,10 @@ def replay_cond_truth(a):
             depth -= 1
         elif ch == "," and depth == 0:
             break
-    v = a["c"] % (2 ** ct[1])
     lit = f"{'SN' if ct[0] else 'UN'}({ct[1]}, {v - 2 ** ct[1] if ct[0] and v >> (ct[1] - 1) else v})"
-    cond = re.sub(r"(?<![A-Za-z0-9_])" + re.escape(c.pure_var()) + r"(?![A-Za-z0-9_])", lit, inner[:i])
+    cond = inner[:i] if a["cond_kind"] == "Number" else re.sub(r"(?<![A-Za-z0-9_])" + re.escape(c.pure_var()) + r"(?![A-Za-z0-9_])", lit, inner[:i])
     srt, val, err = irkit.eval_text_concrete(cond, {}, {})
-    return err is not None or bool(val) != (v != 0), f"{a['what']}.il_write() = {txt}; with {c.pure_var()} = {v:#x} the condition {cond} is {val} ({err or srt}); C truth {v != 0}"
+    return err is not None or bool(val) != (v != 0), f"{a['what']}.il_write() = {txt}; with the condition's value {v:#x} the emitted condition {cond} is {val} ({err or srt}); C truth {v != 0}"
 
 
 @replay.register("c05.effect_text")
